@@ -315,7 +315,7 @@ def rm_jobs(prop, tier, seed, rmbin, rundir, mode="seq", extra_args=None, spec=N
     hists, steps = 40, 40
     if tier == "thorough":
         machines = machines + [m for m in RM_MACHINES_MORE if m not in machines]
-        hists, steps = 1000, 60
+        hists, steps = 400, 50
     jobs = []
     shard = 0
     for pol in spec["policies"]:
